@@ -46,7 +46,11 @@ static struct event_base *base;
 static struct evhttp *http;
 static int srv_port;
 static int hang; /* watchdog fired */
-static size_t scen_maxbuf; /* largest input-buffer length seen during the scenario */
+static size_t scen_maxbuf;
+static jval *reply_spec;      /* server mode: how gen_cb answers (C26); NULL = 200 "ok" */
+static jval *route_spec;      /* server mode: routing configuration (C30) */
+static FILE *rclog; static int nrc; /* return codes of evhttp_add_header / evhttp_make_request */
+static void log_rc(int rc) { if (rclog) fprintf(rclog, "%s%d", nrc++ ? "," : "", rc); } /* largest input-buffer length seen during the scenario */
 
 /* ---- per-run state */
 static FILE *dlog;            /* deliveries as JSON array elements */
@@ -228,13 +232,38 @@ static void gen_cb(struct evhttp_request *req, void *arg)
 {
 	struct evbuffer *b = evbuffer_new();
 	if (ndeliv++) fputc(',', dlog);
-	fprintf(dlog, "{\"m\":\"%s\",\"t\":", cmd_name(evhttp_request_get_command(req)));
+	fprintf(dlog, "{");
+	if (arg) fprintf(dlog, "\"r\":\"%s\",", (const char *)arg);   /* C30: which registration received it */
+	fprintf(dlog, "\"m\":\"%s\",\"t\":", cmd_name(evhttp_request_get_command(req)));
 	j_put_str(dlog, evhttp_request_get_uri(req), strlen(evhttp_request_get_uri(req)));
 	fprintf(dlog, ",\"v\":[%d,%d],\"h\":", req->major, req->minor);
 	log_headers(dlog, evhttp_request_get_input_headers(req));
 	fputs(",\"b\":", dlog);
 	log_body(dlog, evhttp_request_get_input_buffer(req));
 	fputc('}', dlog);
+	if (reply_spec) {
+		jval *hs = j_get(reply_spec, "hdrs"), *ch = j_get(reply_spec, "chunks"), *body = j_get(reply_spec, "body");
+		const char *style = j_str(reply_spec, "style", "reply"), *reason = j_str(reply_spec, "reason", "OK");
+		int code = (int)j_int(reply_spec, "code", 200);
+		size_t i;
+		for (i = 0; hs && i < hs->n; i++)
+			log_rc(evhttp_add_header(evhttp_request_get_output_headers(req), hs->items[i]->items[0]->str, hs->items[i]->items[1]->str));
+		if (!strcmp(style, "error")) evhttp_send_error(req, code, reason);
+		else if (!strcmp(style, "chunked")) {
+			evhttp_send_reply_start(req, code, reason);
+			for (i = 0; ch && i < ch->n; i++) {
+				evbuffer_add(b, ch->items[i]->str, ch->items[i]->slen);
+				evhttp_send_reply_chunk(req, b);
+				evbuffer_drain(b, evbuffer_get_length(b));
+			}
+			evhttp_send_reply_end(req);
+		} else {
+			if (body) evbuffer_add(b, body->str, body->slen);
+			evhttp_send_reply(req, code, reason, b);
+		}
+		evbuffer_free(b);
+		return;
+	}
 	if (evhttp_request_get_command(req) != EVHTTP_REQ_HEAD) evbuffer_add(b, "ok", 2);
 	evhttp_send_reply(req, 200, "OK", b);
 	evbuffer_free(b);
@@ -308,9 +337,11 @@ static void server_run(FILE *f, const char *bytes, size_t n, jval *cuts, int do_
 {
 	struct sockaddr_in sin;
 	char *dbuf = NULL; size_t dlen = 0;
+	char *rcbuf = NULL; size_t rcn = 0;
 	size_t pos = 0, k;
 	int nd_a, closed_a; size_t maxbuf_a;
 	reset_run();
+	rclog = open_memstream(&rcbuf, &rcn); nrc = 0;
 	lib_alive = srv_alive;
 	dlog = open_memstream(&dbuf, &dlen);
 	cfd = socket(AF_INET, SOCK_STREAM, 0);
@@ -335,6 +366,11 @@ static void server_run(FILE *f, const char *bytes, size_t n, jval *cuts, int do_
 	fprintf(f, "{\"d\":[%.*s],\"st\":", (int)dlen, dbuf ? dbuf : "");
 	log_statuses(f, resp, resp_len);
 	fprintf(f, ",\"closed\":%d", closed_a);
+	if (reply_spec) {
+		fflush(rclog);
+		fprintf(f, ",\"rc\":[%.*s],\"raw\":", (int)rcn, rcbuf ? rcbuf : "");
+		j_put_str(f, resp ? resp : "", resp_len);
+	}
 	if (maxbuf_a > scen_maxbuf) scen_maxbuf = maxbuf_a;
 	if (do_eof && !cli_eof) {
 		shutdown(cfd, SHUT_WR);
@@ -346,6 +382,48 @@ static void server_run(FILE *f, const char *bytes, size_t n, jval *cuts, int do_
 	raw_close_abort();
 	wait_until(srv_dead);
 	fclose(dlog); free(dbuf); dlog = NULL;
+	fclose(rclog); free(rcbuf); rclog = NULL;
+}
+
+/* C30: a routing tree built for one scenario:
+ * {"allowed":mask,"nodes":[{"parent":-1|idx,"pattern":str,"aliases":[..],"paths":[..],"gen":0|1},...]} node 0 = root */
+static struct evhttp *route_saved_http; static int route_saved_port;
+static char *route_labels[256]; static int n_route_labels;
+static char *route_label(const char *fmt, int id, const char *path)
+{
+	char *l = malloc(strlen(path) + 32);
+	sprintf(l, fmt, id, path);
+	route_labels[n_route_labels++] = l;
+	return l;
+}
+static void route_build(jval *r)
+{
+	jval *nodes = j_get(r, "nodes");
+	struct evhttp *hs[16]; size_t i, k;
+	struct evhttp_bound_socket *bs; struct sockaddr_in sin; socklen_t sl = sizeof(sin);
+	route_saved_http = http; route_saved_port = srv_port;
+	for (i = 0; i < nodes->n && i < 16; i++) {
+		jval *nd = nodes->items[i], *al = j_get(nd, "aliases"), *ps = j_get(nd, "paths");
+		hs[i] = evhttp_new(base);
+		if (i > 0) evhttp_add_virtual_host(hs[j_int(nd, "parent", 0)], j_str(nd, "pattern", ""), hs[i]);
+		for (k = 0; al && k < al->n; k++) evhttp_add_server_alias(hs[i], al->items[k]->str);
+		for (k = 0; ps && k < ps->n && n_route_labels < 250; k++)
+			evhttp_set_cb(hs[i], ps->items[k]->str, gen_cb, route_label("cb:%d:%s", (int)i, ps->items[k]->str));
+		if (j_int(nd, "gen", 0)) evhttp_set_gencb(hs[i], gen_cb, route_label("gen:%d%s", (int)i, ""));
+	}
+	http = hs[0];
+	evhttp_set_newreqcb(http, newreq_cb, NULL);
+	evhttp_set_allowed_methods(http, (ev_uint32_t)j_int(r, "allowed", 0xffff));
+	bs = evhttp_bind_socket_with_handle(http, "127.0.0.1", 0);
+	if (!bs) { fprintf(stderr, "bind failed\n"); exit(3); }
+	getsockname(evhttp_bound_socket_get_fd(bs), (struct sockaddr *)&sin, &sl);
+	srv_port = ntohs(sin.sin_port);
+}
+static void route_destroy(void)
+{
+	evhttp_free(http); /* frees the virtual hosts too */
+	http = route_saved_http; srv_port = route_saved_port;
+	while (n_route_labels) free(route_labels[--n_route_labels]);
 }
 
 static void apply_server_cfg(jval *cfg)
@@ -388,7 +466,8 @@ static int all_done(void) { return ncb >= nreqs; }
 static void client_run(FILE *f, const char *bytes, size_t n, jval *cuts, jval *reqs, jval *cfg, int do_eof)
 {
 	char *dbuf = NULL; size_t dlen = 0, pos = 0, k;
-	int ncb_a;
+	char *rcbuf = NULL; size_t rcn = 0;
+	int ncb_a, wrote = 0;
 	reset_run(); ncb = 0; naccept = 0; cfd = -1;
 	lib_alive = cli_lib_alive;
 	dlog = open_memstream(&dbuf, &dlen);
@@ -397,12 +476,24 @@ static void client_run(FILE *f, const char *bytes, size_t n, jval *cuts, jval *r
 	if (j_get(cfg, "max_body")) evhttp_connection_set_max_body_size(evcon, (ev_ssize_t)j_int(cfg, "max_body", -1));
 	track_bev(evhttp_connection_get_bufferevent(evcon));
 	nreqs = reqs ? (int)reqs->n : 0;
+	rclog = open_memstream(&rcbuf, &rcn); nrc = 0;
 	for (k = 0; k < (size_t)nreqs; k++) {
-		const char *m = reqs->items[k]->str; char uri[32];
+		jval *w = reqs->items[k]->t == J_OBJ ? reqs->items[k] : NULL;  /* C26: {"m","uri","hdrs","body"} */
+		const char *m = w ? j_str(w, "m", "GET") : reqs->items[k]->str; char uri[32];
 		struct evhttp_request *r = evhttp_request_new(done_cb, (void *)(intptr_t)k);
 		enum evhttp_cmd_type t = !strcmp(m, "HEAD") ? EVHTTP_REQ_HEAD : !strcmp(m, "POST") ? EVHTTP_REQ_POST :
+		    !strcmp(m, "PUT") ? EVHTTP_REQ_PUT : !strcmp(m, "DELETE") ? EVHTTP_REQ_DELETE :
 		    !strcmp(m, "CONNECT") ? EVHTTP_REQ_CONNECT : EVHTTP_REQ_GET;
 		snprintf(uri, sizeof(uri), "/r%d", (int)k);
+		if (w) {
+			jval *hs = j_get(w, "hdrs"), *body = j_get(w, "body"); size_t i;
+			for (i = 0; hs && i < hs->n; i++)
+				log_rc(evhttp_add_header(evhttp_request_get_output_headers(r), hs->items[i]->items[0]->str, hs->items[i]->items[1]->str));
+			if (body && body->slen) evbuffer_add(evhttp_request_get_output_buffer(r), body->str, body->slen);
+			log_rc(evhttp_make_request(evcon, r, t, j_str(w, "uri", "/")));
+			wrote = 1;
+			continue;
+		}
 		evhttp_add_header(evhttp_request_get_output_headers(r), "Host", "h");
 		if (t == EVHTTP_REQ_POST) evbuffer_add(evhttp_request_get_output_buffer(r), "pp", 2);
 		evhttp_make_request(evcon, r, t, uri);
@@ -427,6 +518,11 @@ static void client_run(FILE *f, const char *bytes, size_t n, jval *cuts, jval *r
 	fflush(dlog);
 	ncb_a = ncb;
 	fprintf(f, "{\"cb\":[%.*s],\"closed\":%d,\"sent\":%zu", (int)dlen, dbuf ? dbuf : "", cli_eof, cli_written);
+	if (wrote) {
+		fflush(rclog);
+		fprintf(f, ",\"rc\":[%.*s],\"raw\":", (int)rcn, rcbuf ? rcbuf : "");
+		j_put_str(f, resp ? resp : "", resp_len);
+	}
 	if (maxbuf > scen_maxbuf) scen_maxbuf = maxbuf;
 	/* teardown: abort the raw side; outstanding requests fail */
 	raw_close_abort();
@@ -436,6 +532,7 @@ static void client_run(FILE *f, const char *bytes, size_t n, jval *cuts, jval *r
 	event_base_loop(base, EVLOOP_NONBLOCK);
 	raw_accept();
 	fclose(dlog); free(dbuf); dlog = NULL;
+	fclose(rclog); free(rcbuf); rclog = NULL;
 }
 
 /* ---- scenario */
@@ -449,6 +546,8 @@ static void run_scenario(jval *sc, FILE *out)
 	size_t i; int k;
 	hang = 0; scen_maxbuf = 0;
 	if (!bytes || bytes->t != J_STR || !segs) { fprintf(out, "{\"err\":\"bad scenario\"}\n"); return; }
+	reply_spec = j_get(sc, "reply"); route_spec = j_get(sc, "route");
+	if (!strcmp(mode, "server") && route_spec) route_build(route_spec);
 	if (!strcmp(mode, "server")) apply_server_cfg(cfg);
 	for (i = 0; i < segs->n && !hang; i++) {
 		char *ob = NULL; size_t on = 0;
@@ -466,6 +565,7 @@ static void run_scenario(jval *sc, FILE *out)
 		obs[k].idx = realloc(obs[k].idx, (obs[k].nidx + 1) * sizeof(int));
 		obs[k].idx[obs[k].nidx++] = (int)i;
 	}
+	if (!strcmp(mode, "server") && route_spec) route_destroy();
 	fprintf(out, "{\"runs\":[");
 	for (k = 0; k < nobs; k++) {
 		int j;
